@@ -66,6 +66,15 @@ struct Item {
     no_ptr_rule: bool,
     #[serde(default)]
     keep_pub: bool,
+    /// E8b: `for PAT in X.m()` where `m` is the unit's own iterator-returning method whose body is `CTOR(self)`:
+    /// method name -> CTOR (e.g. "arcs" -> "ArcsIterator::new")
+    #[serde(default)]
+    iter_inline: BTreeMap<String, String>,
+    /// E3: take the item from the transcriber of `macro_rules! NAME { ($type:ty) => { ... } }` with `$type` := macro_arg
+    #[serde(default)]
+    macro_rules: Option<String>,
+    #[serde(default)]
+    macro_arg: Option<String>,
     /// exact-text replacements (escape hatch, reported as rule M)
     #[serde(default)]
     manual: Vec<(String, String, String)>,
@@ -201,6 +210,8 @@ struct Ctx<'a> {
     /// E5b: end pointers: alias -> base
     ptr_end: BTreeMap<String, String>,
     tmp_n: usize,
+    /// E8b side conditions to check against the file: (method, ctor)
+    inline_checks: Vec<(String, String)>,
     /// occurrences counters for anchors
     anchor_occ: BTreeMap<String, usize>,
     self_iter_types: Vec<String>,
@@ -664,6 +675,24 @@ impl<'a, 'ast> Visit<'ast> for Ctx<'a> {
             self.visit_block(&f.body);
             return;
         }
+        if let syn::Expr::MethodCall(mc) = &*f.expr {
+            if mc.args.is_empty() {
+                if let Some(ctor) = self.item.iter_inline.get(&mc.method.to_string()).cloned() {
+                    // E8b: language-defined desugaring with the (checked) body of the iterator-returning method inlined
+                    let ord = self.loops.len() + 1;
+                    self.loops.push(LoopOut { ordinal: ord, kind: "for-own-iterator".into(), line: self.src.line_of(self.src.range(f.span()).0) });
+                    let recv = self.src.slice(mc.receiver.span()).to_string();
+                    let pat = self.src.slice(f.pat.span()).to_string();
+                    let name = format!("{}_it", mc.method);
+                    let (fs, _) = self.src.range(f.for_token.span());
+                    let (bo, _) = self.src.range(f.body.brace_token.span.open());
+                    self.add(fs, bo, format!("let mut {name} = {ctor}({recv}); while let Some({pat}) = {name}.next() /*@LOOP{ord}@*/ "), "E8b own-iterator loop");
+                    self.inline_checks.push((mc.method.to_string(), ctor));
+                    self.visit_block(&f.body);
+                    return;
+                }
+            }
+        }
         let ord = self.loop_marker("for", &f.body, f.span());
         let (es, _) = self.src.range(f.expr.span());
         self.add(es, es, format!("it{ord}: "), "for-loop ghost iterator binder");
@@ -859,7 +888,7 @@ fn extract_fn(file: &syn::File, src: &Src, it: &Item) -> ItemOut {
     out.orig_start_line = src.line_of(ws);
     out.orig_end_line = src.line_of(we);
 
-    let mut cx = Ctx { src, item: it, edits: vec![], seq: 0, loops: vec![], closures: 0, sites: BTreeMap::new(), errors: vec![], anchors_found: vec![], ptr_base: BTreeMap::new(), ptr_elem: BTreeMap::new(), ptr_cursor: BTreeMap::new(), ptr_end: BTreeMap::new(), tmp_n: 0, anchor_occ: BTreeMap::new(), self_iter_types: vec![] };
+    let mut cx = Ctx { src, item: it, edits: vec![], seq: 0, loops: vec![], closures: 0, sites: BTreeMap::new(), errors: vec![], anchors_found: vec![], ptr_base: BTreeMap::new(), ptr_elem: BTreeMap::new(), ptr_cursor: BTreeMap::new(), ptr_end: BTreeMap::new(), tmp_n: 0, inline_checks: vec![], anchor_occ: BTreeMap::new(), self_iter_types: vec![] };
 
     // ---- signature, rebuilt from source slices (E0, E2, E10, E11) ----
     let mut sigtxt = String::new();
@@ -873,7 +902,7 @@ fn extract_fn(file: &syn::File, src: &Src, it: &Item) -> ItemOut {
     // inputs: visit for subst
     let (ps, pe) = src.range(sig.paren_token.span.join());
     {
-        let mut sub = Ctx { src, item: it, edits: vec![], seq: 0, loops: vec![], closures: 0, sites: BTreeMap::new(), errors: vec![], anchors_found: vec![], ptr_base: BTreeMap::new(), ptr_elem: BTreeMap::new(), ptr_cursor: BTreeMap::new(), ptr_end: BTreeMap::new(), tmp_n: 0, anchor_occ: BTreeMap::new(), self_iter_types: vec![] };
+        let mut sub = Ctx { src, item: it, edits: vec![], seq: 0, loops: vec![], closures: 0, sites: BTreeMap::new(), errors: vec![], anchors_found: vec![], ptr_base: BTreeMap::new(), ptr_elem: BTreeMap::new(), ptr_cursor: BTreeMap::new(), ptr_end: BTreeMap::new(), tmp_n: 0, inline_checks: vec![], anchor_occ: BTreeMap::new(), self_iter_types: vec![] };
         for inp in &sig.inputs { sub.visit_fn_arg(inp); }
         let mut errs = vec![];
         sigtxt.push_str(&norm(&apply_edits(src, ps, pe, sub.edits.clone(), &mut errs)));
@@ -882,7 +911,7 @@ fn extract_fn(file: &syn::File, src: &Src, it: &Item) -> ItemOut {
     }
     if let syn::ReturnType::Type(_, ty) = &sig.output {
         let (ts, te) = src.range(ty.span());
-        let mut sub = Ctx { src, item: it, edits: vec![], seq: 0, loops: vec![], closures: 0, sites: BTreeMap::new(), errors: vec![], anchors_found: vec![], ptr_base: BTreeMap::new(), ptr_elem: BTreeMap::new(), ptr_cursor: BTreeMap::new(), ptr_end: BTreeMap::new(), tmp_n: 0, anchor_occ: BTreeMap::new(), self_iter_types: vec![] };
+        let mut sub = Ctx { src, item: it, edits: vec![], seq: 0, loops: vec![], closures: 0, sites: BTreeMap::new(), errors: vec![], anchors_found: vec![], ptr_base: BTreeMap::new(), ptr_elem: BTreeMap::new(), ptr_cursor: BTreeMap::new(), ptr_end: BTreeMap::new(), tmp_n: 0, inline_checks: vec![], anchor_occ: BTreeMap::new(), self_iter_types: vec![] };
         sub.visit_type(ty);
         let mut errs = vec![];
         let mut t = norm(&apply_edits(src, ts, te, sub.edits.clone(), &mut errs));
@@ -925,6 +954,23 @@ fn extract_fn(file: &syn::File, src: &Src, it: &Item) -> ItemOut {
         cx.seq += 1;
         cx.edits.push(Edit { start: p, end: p + from.len(), text: to.clone(), rule: format!("M manual: {why}"), seq: cx.seq });
     }
+    for (m, ctor) in cx.inline_checks.clone() {
+        // the method `m` of some impl in this file must have exactly the body `{ CTOR(self) }`
+        let mut ok = false;
+        for item in &file.items {
+            if let syn::Item::Impl(im) = item {
+                for ii in &im.items {
+                    if let syn::ImplItem::Fn(f) = ii {
+                        if f.sig.ident == m && f.sig.inputs.len() == 1 {
+                            let body = norm(src.slice(f.block.span())).replace(' ', "");
+                            if body == format!("{{{ctor}(self)}}").replace(' ', "") { ok = true; }
+                        }
+                    }
+                }
+            }
+        }
+        if !ok { cx.errors.push(format!("E8b: side condition failed: no method `{m}` with body `{ctor}(self)` in {}", it.file)); }
+    }
     for an in &it.anchors {
         if !cx.anchors_found.contains(&an.id) {
             cx.errors.push(format!("lost anchor: hint anchor {} ({} `{}` loop {})", an.id, an.where_, an.text, an.loop_));
@@ -960,7 +1006,7 @@ fn extract_struct(file: &syn::File, src: &Src, it: &Item) -> ItemOut {
                 out.orig_text = src.text[ws..we].to_string();
                 out.orig_start_line = src.line_of(ws);
                 out.orig_end_line = src.line_of(we);
-                let mut cx = Ctx { src, item: it, edits: vec![], seq: 0, loops: vec![], closures: 0, sites: BTreeMap::new(), errors: vec![], anchors_found: vec![], ptr_base: BTreeMap::new(), ptr_elem: BTreeMap::new(), ptr_cursor: BTreeMap::new(), ptr_end: BTreeMap::new(), tmp_n: 0, anchor_occ: BTreeMap::new(), self_iter_types: vec![] };
+                let mut cx = Ctx { src, item: it, edits: vec![], seq: 0, loops: vec![], closures: 0, sites: BTreeMap::new(), errors: vec![], anchors_found: vec![], ptr_base: BTreeMap::new(), ptr_elem: BTreeMap::new(), ptr_cursor: BTreeMap::new(), ptr_end: BTreeMap::new(), tmp_n: 0, inline_checks: vec![], anchor_occ: BTreeMap::new(), self_iter_types: vec![] };
                 cx.visit_fields(&s.fields);
                 let (fs, fe) = src.range(s.fields.span());
                 let mut errs = vec![];
@@ -1031,6 +1077,33 @@ fn inventory(file: &syn::File, src: &Src, it: &Item) -> ItemOut {
     ItemOut { id: it.id.clone(), orig_file: it.file.clone(), inventory: inv.rows, ..Default::default() }
 }
 
+/// E3: text of the transcriber of `macro_rules! name { ($x:ty) => { BODY } ... }` (first rule) with `$x` replaced by `arg`
+fn instantiate_macro(text: &str, name: &str, arg: &str) -> Result<String, String> {
+    let pat = format!("macro_rules! {name}");
+    let p = text.find(&pat).ok_or_else(|| format!("lost anchor: macro_rules! {name} not found"))?;
+    let rest = &text[p..];
+    // matcher: ($ident:ty)
+    let m0 = rest.find("($").ok_or("E3: unsupported macro matcher")?;
+    let m1 = rest[m0..].find(')').ok_or("E3: unsupported macro matcher")? + m0;
+    let matcher = &rest[m0 + 1..m1];
+    let mut parts = matcher.split(':');
+    let var = parts.next().unwrap_or("").trim().to_string();
+    let kind = parts.next().unwrap_or("").trim();
+    if !var.starts_with('$') || kind != "ty" { return Err(format!("E3: unsupported macro matcher `{matcher}`")); }
+    let arrow = rest[m1..].find("=>").ok_or("E3: no transcriber")? + m1;
+    let open = rest[arrow..].find('{').ok_or("E3: no transcriber")? + arrow;
+    let mut depth = 0i32;
+    let mut close = None;
+    for (i, ch) in rest[open..].char_indices() {
+        match ch { '{' => depth += 1, '}' => { depth -= 1; if depth == 0 { close = Some(open + i); break; } } _ => {} }
+    }
+    let close = close.ok_or("E3: unbalanced transcriber")?;
+    // preserve line numbers of the original file: pad with newlines up to the transcriber
+    let prefix_lines = text[..p + open + 1].matches('\n').count();
+    let body = rest[open + 1..close].replace(&var, arg);
+    Ok(format!("{}{}", "\n".repeat(prefix_lines), body))
+}
+
 fn main() {
     let args: Vec<String> = std::env::args().collect();
     let req_text = if args.len() > 1 { std::fs::read_to_string(&args[1]).expect("read request") } else { std::io::read_to_string(std::io::stdin()).expect("stdin") };
@@ -1038,6 +1111,31 @@ fn main() {
     let mut cache: BTreeMap<String, (Src, Result<syn::File, String>)> = BTreeMap::new();
     let mut outs = vec![];
     for it in &req.items {
+        if let Some(mname) = &it.macro_rules {
+            // E3: instantiate the single-rule macro textually
+            let key = format!("{}#{}#{}", it.file, mname, it.macro_arg.clone().unwrap_or_default());
+            if !cache.contains_key(&key) {
+                let text = std::fs::read_to_string(&it.file).unwrap_or_default();
+                let inst = instantiate_macro(&text, mname, it.macro_arg.as_deref().unwrap_or(""));
+                match inst {
+                    Ok(t) => {
+                        let parsed = syn::parse_file(&t).map_err(|e| format!("parse error in instance of {mname}: {e}"));
+                        cache.insert(key.clone(), (Src::new(t), parsed));
+                    }
+                    Err(e) => { outs.push(ItemOut { id: it.id.clone(), errors: vec![e], ..Default::default() }); continue; }
+                }
+            }
+            let (src, parsed) = cache.get(&key).unwrap();
+            match parsed {
+                Ok(f) => {
+                    let mut o = extract_fn(f, src, it);
+                    o.edits.push(EditOut { rule: format!("E3 macro instance {mname}!({})", it.macro_arg.clone().unwrap_or_default()), line: 0, from: "$type".into(), to: it.macro_arg.clone().unwrap_or_default() });
+                    outs.push(o);
+                }
+                Err(e) => outs.push(ItemOut { id: it.id.clone(), errors: vec![e.clone()], ..Default::default() }),
+            }
+            continue;
+        }
         if !cache.contains_key(&it.file) {
             let text = match std::fs::read_to_string(&it.file) {
                 Ok(t) => t,
